@@ -649,11 +649,12 @@ impl<'a, C: Crypto + 'a> CaseP<'a, C> {
         &mut self,
         crypto: &C,
         fabric: &Fabric,
+        tt_hash: HashRef<'_>,
         signature: CanonPkcSignatureRef<'_>,
         out: &mut [u8],
     ) -> Result<usize, Error> {
         let mut sigma3_key = AEAD_KEY_ZEROED;
-        self.compute_sigma3_key(crypto, fabric.ipk().op_key(), &mut sigma3_key)?;
+        self.compute_sigma3_key(crypto, fabric.ipk().op_key(), tt_hash, &mut sigma3_key)?;
 
         let mut tw = WriteBuf::new(out);
 
@@ -696,8 +697,11 @@ impl<'a, C: Crypto + 'a> CaseP<'a, C> {
         ipk: CanonAeadKeyRef<'_>,
         encrypted: &mut [u8],
     ) -> Result<usize, Error> {
+        let mut tt_hash = HASH_ZEROED;
+        self.current_tt_hash(&mut tt_hash)?;
+
         let mut sigma3_key = AEAD_KEY_ZEROED;
-        self.compute_sigma3_key(crypto, ipk, &mut sigma3_key)?;
+        self.compute_sigma3_key(crypto, ipk, tt_hash.reference(), &mut sigma3_key)?;
         // println!("Sigma3 Key: {:x?}", sigma3_key);
 
         let encrypted_len = encrypted.len();
@@ -721,12 +725,10 @@ impl<'a, C: Crypto + 'a> CaseP<'a, C> {
         &mut self,
         crypto: &C,
         ipk: CanonAeadKeyRef<'_>,
+        tt_hash: HashRef<'_>,
         key: &mut CanonAeadKey,
     ) -> Result<(), Error> {
         const S3K_INFO: [u8; 6] = [0x53, 0x69, 0x67, 0x6d, 0x61, 0x33];
-
-        let mut tt_hash = HASH_ZEROED;
-        self.current_tt_hash(&mut tt_hash)?;
 
         let mut salt = CryptoSensitive::<{ AEAD_CANON_KEY_LEN + HASH_LEN }>::new();
 
